@@ -235,6 +235,86 @@ def _try_for_each(ids):
     return fn
 
 
+def _take_while_count(ids):
+    """`let n = xs.iter().copied().take_while(|&b| c).count();`  ->  `let n~pos = xs.iter().copied().position(|b| !c);
+    let n = n~pos.unwrap_or(xs.len());` — the same closure calls on the same elements in the same order (both stop at the first
+    element that fails `c`), and the count is the position of that element or the length."""
+    def slice_of(it):
+        it = hir.simp(it)
+        while isinstance(it, dict) and it.get("k") == "call" and (it.get("callee") or "").split("::")[-1] in ("copied", "cloned") and len(it["args"]) == 1:
+            it = hir.simp(it["args"][0])
+        if isinstance(it, dict) and it.get("k") == "call" and (it.get("callee") or "") == "core::slice::<impl [T]>::iter" and len(it["args"]) == 1 and pure(it["args"][0]):
+            return it["args"][0]
+        return None
+
+    def negate(e):
+        e0 = hir.simp(e)
+        if isinstance(e0, dict) and e0.get("k") == "block" and "expr" in e0:
+            return dict(e0, expr=negate(e0["expr"]))
+        if isinstance(e0, dict) and e0.get("k") == "un" and e0.get("op") == "Not" and "callee" not in e0:
+            return e0["e"]
+        return {"k": "un", "op": "Not", "e": e0, "ty": "bool", "ln": e0.get("ln") if isinstance(e0, dict) else None, "norm": "take-while-count"}
+
+    def fn(n):
+        if n.get("k") != "block":
+            return n
+        out, changed = [], False
+        for st in n.get("stmts", []):
+            s0 = st
+            init = hir.simp(s0.get("init")) if isinstance(s0, dict) and s0.get("k") == "let" and "init" in s0 and "els" not in s0 else None
+            if init is not None and s0["pat"].get("k") == "pbind" and init.get("k") == "call" and (init.get("callee") or "") == "core::iter::traits::iterator::Iterator::count" \
+                    and len(init["args"]) == 1:
+                tw = hir.simp(init["args"][0])
+                if isinstance(tw, dict) and tw.get("k") == "call" and (tw.get("callee") or "") == "core::iter::traits::iterator::Iterator::take_while" and len(tw["args"]) == 2:
+                    xs = slice_of(tw["args"][0])
+                    clo = hir.simp(tw["args"][1])
+                    if xs is not None and isinstance(clo, dict) and clo.get("k") == "closure" and len(clo.get("params", [])) == 1 \
+                            and clo["params"][0].get("k") == "pref" and clo["params"][0]["p"].get("k") == "pbind" \
+                            and not any(x.get("k") == "ret" for x in nodes_outside_closures(clo["body"])):
+                        ln = s0.get("ln")
+                        pid = ids.next()
+                        pname = s0["pat"]["name"] + "~pos"
+                        clo2 = dict(clo, params=[clo["params"][0]["p"]], body=negate(clo["body"]))
+                        pos = {"k": "call", "callee": "core::iter::traits::iterator::Iterator::position", "args": [tw["args"][0], clo2], "ln": ln,
+                               "ty": "core::option::Option<usize>", "norm": "take-while-count"}
+                        out.append({"k": "let", "pat": {"k": "pbind", "name": pname, "id": pid, "mode": "BindingMode(No, Not)", "ty": "core::option::Option<usize>"},
+                                    "init": pos, "ln": ln, "norm": "take-while-count"})
+                        ln_call = {"k": "call", "callee": "core::slice::<impl [T]>::len", "args": [copy.deepcopy(xs)], "ln": ln, "ty": "usize"}
+                        uo = {"k": "call", "callee": "core::option::Option::<T>::unwrap_or", "ln": ln, "ty": "usize", "norm": "take-while-count",
+                              "args": [{"k": "local", "name": pname, "id": pid, "ln": ln, "ty": "core::option::Option<usize>"}, ln_call]}
+                        out.append(dict(s0, init=uo, twc=True))
+                        changed = True
+                        continue
+            out.append(st)
+        if not changed:
+            return n
+        # a count used by the next statement only (`split_at(n)`) is written there
+        res = dict(n, stmts=out)
+        i = 0
+        while i < len(res["stmts"]):
+            st = res["stmts"][i]
+            if isinstance(st, dict) and st.get("twc") and "Mut" not in str(st["pat"].get("mode", "").split(",")[-1]):
+                vid = st["pat"].get("id")
+                rest = res["stmts"][i + 1:] + ([res["expr"]] if "expr" in res else [])
+                uses = [sum(1 for x in all_nodes(r) if x.get("k") == "local" and x.get("id") == vid) for r in rest]
+                if rest and uses[0] >= 1 and not any(uses[1:]):
+                    def sub(x, vid=vid, e=st["init"]):
+                        return copy.deepcopy(e) if x.get("k") == "local" and x.get("id") == vid else x
+                    new_next = map_tree(rest[0], sub)
+                    stmts = list(res["stmts"])
+                    if i + 1 < len(stmts):
+                        stmts[i + 1] = new_next
+                        del stmts[i]
+                        res = dict(res, stmts=stmts)
+                    else:
+                        del stmts[i]
+                        res = dict(res, stmts=stmts, expr=new_next)
+                    continue
+            i += 1
+        return res
+    return fn
+
+
 def _map_fusion(n):
     """`for x in it.map(|p| e) { body }` -> `for p in it { let x = e; body }` (the closure runs once per item, just before the body)."""
     if n.get("k") != "match" or n.get("src") != "ForLoopDesugar":
@@ -1126,6 +1206,35 @@ def bool_tuple_match(root):
     return map_tree(root, fn)
 
 
+def variant_match_to_if(root):
+    """`match place { Enum::V => a, other => b }` (pure place scrutinee, a unit variant, then `_` or a plain binding)  ->
+    `if place == Enum::V { a } else { let other = place; b }`. Not part of the crate-wide pipeline: applied by rules whose
+    reference form is the `if` (the strip scanners)."""
+    def fn(n):
+        if n.get("k") != "match" or n.get("src") not in ("Normal", None) or len(n.get("arms", [])) != 2 or any(a.get("guard") for a in n["arms"]):
+            return n
+        sc = hir.simp(n["scrut"])
+        a0, a1 = n["arms"]
+        if not (isinstance(sc, dict) and pure(sc) and a0["pat"].get("k") == "ppath"):
+            return n
+        p1 = a1["pat"]
+        if p1.get("k") == "pwild":
+            other = a1["body"]
+        elif p1.get("k") == "pbind" and not p1.get("sub") and not p1.get("by_ref"):
+            let = {"k": "let", "pat": copy.deepcopy(p1), "init": copy.deepcopy(sc), "ln": n.get("ln"), "norm": "variant-match"}
+            body = a1["body"]
+            if isinstance(body, dict) and body.get("k") == "block" and not body.get("label"):
+                other = dict(body, stmts=[let] + list(body.get("stmts", [])))
+            else:
+                other = {"k": "block", "stmts": [let], "expr": body, "ty": n.get("ty"), "ln": n.get("ln")}
+        else:
+            return n
+        cond = {"k": "bin", "op": "Eq", "l": copy.deepcopy(sc), "r": {"k": "def", "dk": "Variant", "path": a0["pat"]["path"], "ln": n.get("ln"), "ty": sc.get("ty")},
+                "ln": n.get("ln"), "ty": "bool", "norm": "variant-test"}
+        return {"k": "if", "c": cond, "t": a0["body"], "e": other, "ln": n.get("ln"), "ty": n.get("ty"), "norm": "variant-match"}
+    return map_tree(root, fn)
+
+
 def _index_through_ref(n):
     """`(&a)[i]` is `a[i]` (indexing auto-dereferences); arises when a slice parameter of an inlined helper was given `&TABLE`."""
     if n.get("k") == "index" and isinstance(n.get("e"), dict):
@@ -1699,6 +1808,7 @@ def normalise_crate(name, crate):
         h = map_tree(h, _int_from)
         h = map_tree(h, _then_some)
         h = map_tree(h, _try_for_each(ids))
+        h = map_tree(h, _take_while_count(ids))
         h = map_tree(h, _explicit_try(ids))
         h = unroll_const_loops(h, const_bodies, ids)
         h = specialise_range_arms(h, ids)
